@@ -36,7 +36,7 @@ func (h *history) resolve() {
 	}
 }
 
-var coreObjs = map[string]bool{"se-a": true, "se-a2": true, "vs-a": true, "dr-a": true, "sidecar-ns1": true, "k8s-slice": true, "pa-ns1": true, "we-w": true}
+var coreObjs = map[string]bool{"se-a": true, "se-a2": true, "vs-a": true, "dr-a": true, "sidecar-ns1": true, "k8s-slice": true, "pa-ns1": true, "we-w": true, "k8s-hl-slice": true}
 
 // coldMemo: per worker process, cold-server results per object set
 var coldMemo = map[string][]snapshot{}
